@@ -210,6 +210,12 @@ func Solve(query string, timeoutS int, seed int, usesZ3Ext bool, needModel bool)
 	defer cancel2()
 	ch := make(chan SolveResult, len(cmds))
 	n := 0
+	// extra z3 5.1 runs with other seeds: quantifier instantiation order makes single runs unstable
+	for k := 1; k <= 2; k++ {
+		extra := solverCmds(timeoutS, seed+17*k)[0]
+		extra.name += fmt.Sprintf(" (seed+%d)", 17*k)
+		cmds = append(cmds, extra)
+	}
 	for i, sp := range cmds {
 		if i == 2 {
 			if usesZ3Ext {
